@@ -13,7 +13,7 @@
 //          2 as soon as the first call is inside the function; 3 as soon as the first call has returned;
 //          4 as soon as a kick-off has taken its run from timesToRun (the kicker is about to enter, or is inside, the
 //          task's wrapped function: one preemption away from every point of it)
-//          ('|' separates alternatives of when/act/fa; all combinations are explored via mc::choose)
+//          ('|' separates alternatives of when/act/fa; all combinations are explored via mc::choose)\n//   entry  1 (default): a scheduling point at the very beginning of the function (see Fn::operator())
 // Order of teardown: task, scheduler (stops its thread), pool.
 #include "mc_harness.h"
 #include <dispenso/detail/quanta.h>
@@ -43,7 +43,7 @@ static void hcover(const char* name) {
 }
 
 struct Ctx {
-  int n = 1, fa = 0;
+  int n = 1, fa = 0, entry_point = 1;
   mc::Shared<int> started{0}, finished{0}, in_call{0};
   mc::Shared<int> returned_false{0};
   mc::Shared<int> cancel_returned{0}, inprog_at_cancel{0};
@@ -68,6 +68,9 @@ struct Fn {
       can0 = canary;
     }
     MC_CHECK(can0 == 0x600D, "the function object had already been destroyed when it was called (canary %x)", can0);
+    // A preemption right at the call boundary: the wrapped call's cancelled check and this call are plain code,
+    // so this is the only way to let another thread run between them. The call "starts" with its first effect.
+    if (c->entry_point) mc::point();
     int k = c->started.add(1) + 1;
     uint64_t now = mc::now_ns();
     MC_CHECK(!c->destroyed.get(), "call %d started after ~TimedTask returned", k);
@@ -103,6 +106,7 @@ void timed_body(const mc::Params& P, Sched& sched) {
   Ctx c;
   c.n = (int)P("n", 1);
   c.fa = atoi(pick_alt(P.s("fa", "0")).c_str());
+  c.entry_point = (int)P("entry", 1);
   int act = atoi(pick_alt(P.s("act", "0")).c_str());
   int when = atoi(pick_alt(P.s("when", "0")).c_str());
   long per = P("per", 0), delay = P("delay", 0);
@@ -131,7 +135,8 @@ void timed_body(const mc::Params& P, Sched& sched) {
         else if (when == 4) {
           auto* impl = task.impl_.get();
           size_t n0 = (size_t)c.n;
-          mc::block_until([impl, n0] { return impl->timesToRun.a_.load(std::memory_order_relaxed) < n0; });
+          // '!=': after a cancel / a false return the next kick-off's fetch_sub wraps the counter from 0 to SIZE_MAX
+          mc::block_until([impl, n0] { return impl->timesToRun.a_.load(std::memory_order_relaxed) != n0; });
           hcover("timed_act_at_kickoff");
         }
         if (act == 1) {
